@@ -59,6 +59,7 @@ def check(case, ctx):
         sizes = np.asarray(sizes)
     except Exception as e:
         return [Failure("get_components:bad-return", "unexpected return value: %r" % (e,), case)]
+    comps_then, sizes_then = comps.copy(), sizes.copy()
     ref, m = og.components_und(A)
     ref = np.array(ref)
     # classes for the evidence
@@ -115,6 +116,12 @@ def check(case, ctx):
             u, v = np.argwhere((fin != same) & off)[0]
             fails.append(Failure("%s:finite-distance-disagrees-with-components" % name,
                                  "pair (%d,%d): D=%s, same component=%s" % (u, v, D[u, v], bool(same[u, v])), case))
+    # what the caller still holds: the label vector and the sizes returned at the top, after all the later calls and one more on another network
+    ctx.call(bct.get_components, np.ones((max(n - 1, 1), max(n - 1, 1))) - np.eye(max(n - 1, 1)))
+    ctx.call(bct.number_of_components, np.zeros((n + 1, n + 1)))
+    if not fails and (not np.array_equal(comps, comps_then) or not np.array_equal(sizes, sizes_then)):
+        fails.append(Failure("get_components:result-held-by-caller-changed-by-a-later-call",
+                             "labels read %s when returned and %s after later calls" % (comps_then.tolist(), comps.tolist()), case))
     # history: the SAME array object is edited in place (one node cut off) and handed in again
     cut = case.get("cut")
     if sym and cut is not None and n > cut and not fails:
